@@ -41,6 +41,47 @@ Theorem c02_xsw_free :
 Proof. exact xsw_free_as_coded. Qed.
 Print Assumptions c02_xsw_free.
 
+(* (round 5) "... are exactly those of AN element covered by a valid signature": ONE covered element accounts for
+   everything that is reported.  For every engine, document, policy that requires a signature, oracle and
+   cryptography: if the Response itself carries a signature (it is then verified and is that element), or exactly one
+   assertion feeds the report (mix_guard), there is one digested element - certificate bound by metadata to its own
+   Issuer - inside which every reported field is found.  The complement of mix_guard is finding C02-F4. *)
+Theorem c02_single_element :
+  forall E dig_ok sig_ok c o doc ddoc rep ds,
+    sig_required c -> oracle_sane o doc ddoc -> dec_sound doc ddoc -> mix_guard doc ddoc ->
+    accept dig_ok sig_ok E as_coded c o doc ddoc = Some (rep, ds) ->
+    spec_one c (cov_of doc ddoc ds) rep.
+Proof. exact single_as_coded. Qed.
+Print Assumptions c02_single_element.
+
+(* no guard is needed for a Response without EncryptedAssertion children: parse_assertion's count test ("exactly one
+   plain Assertion child OR exactly one EncryptedAssertion child") then leaves exactly one assertion *)
+Theorem c02_single_element_plain :
+  forall E dig_ok sig_ok c o doc ddoc rep ds,
+    sig_required c -> oracle_sane o doc ddoc -> dec_sound doc ddoc ->
+    many ENCASSERTION doc = [] -> find_encrypt_data doc = false ->
+    accept dig_ok sig_ok E as_coded c o doc ddoc = Some (rep, ds) ->
+    spec_one c (cov_of doc ddoc ds) rep.
+Proof. exact single_plain_as_coded. Qed.
+Print Assumptions c02_single_element_plain.
+
+(* C02-F4 (open): the count test is an OR.  Two genuinely signed assertions (alice, bob) in an unsigned envelope are
+   refused (doc_two) - but accepted as soon as the Response also has exactly one EncryptedAssertion child, be it an
+   empty element (doc_mix) or a real ciphertext (doc_mix_enc: one plain, one encrypted).  The report then names bob
+   (subject of the last assertion) with the session of alice (resp. attributes of alice): each field is signed content
+   (spec holds), no single covered element carries the combination (spec_one fails).  Outside mix_guard. *)
+Theorem c02_mixture_refuted :
+  Ex.mixed Ex.cfgA Ex.doc_mix None = Some (true, false, Some "bob"%string, Some "s-alice"%string)
+  /\ Ex.mixed Ex.cfgA Ex.doc_mix_enc (Some Ex.ddoc_mix_enc) = Some (true, false, Some "bob"%string, Some "s-bob"%string)
+  /\ (exists rep ds, Ex.run2 Ex.cfgA Ex.doc_mix None = Some (rep, ds)
+                     /\ oracle_sane Ex.ok3 Ex.doc_mix None /\ dec_sound Ex.doc_mix None /\ sig_required Ex.cfgA
+                     /\ spec Ex.cfgA (cov_of Ex.doc_mix None ds) rep
+                     /\ ~ spec_one Ex.cfgA (cov_of Ex.doc_mix None ds) rep)
+  /\ ~ mix_guard Ex.doc_mix None /\ ~ mix_guard Ex.doc_mix_enc (Some Ex.ddoc_mix_enc)
+  /\ Ex.run2 Ex.cfgA Ex.doc_two None = None.
+Proof. exact f4_refuted. Qed.
+Print Assumptions c02_mixture_refuted.
+
 (* the behaviour before 32211c52 (knobs_v1: the uniqueness test saw namespace-qualified elements only) satisfied the
    property for the lenient engines only under engine_guard (trivially true for an engine strict about duplicate IDs) ... *)
 Theorem c02_v1_covered :
@@ -313,3 +354,13 @@ Theorem c02_source2_validators :
     /\ (validators as_coded item = false -> exists n, run_validators cls nn item xml node issuer = PExc n).
 Proof. exact src2_validators_is_model. Qed.
 Print Assumptions c02_source2_validators.
+
+(* (round 5) response.AuthnResponse.parse_assertion, its first statement (the assertion-count test, cut out of the live
+   text): lets the Response through exactly when Model.count_ok holds, raises InvalidAssertion otherwise *)
+Theorem c02_source2_count :
+  forall (ctx : string) (doc : tree),
+    (String.eqb ctx "AuthnQuery" = false ->
+     src2_count (enc_self_count ctx doc PNone) = if count_ok doc then PNone else PExc "InvalidAssertion")
+    /\ src2_count (enc_self_count "AuthnQuery" doc PNone) = PNone.
+Proof. exact src2_count_is_model. Qed.
+Print Assumptions c02_source2_count.
